@@ -39,6 +39,7 @@ from dashlive.server.routes import routes, Route
 from dashlive.server.options.container import OptionsContainer
 from dashlive.server.options.repository import OptionsRepository
 from dashlive.server.options.utc_time_options import UTCMethod
+from dashlive.utils.date_time import from_isodatetime
 from dashlive.utils.json_object import JsonObject
 from dashlive.utils.timezone import UTC
 
@@ -147,6 +148,20 @@ class RequestHandlerBase(MethodView):
             else:
                 # raises ValueError if the UTC offset is 24 hours or more
                 ast.utcoffset()
+        positions: list = []
+        for name in ['audioErrors', 'manifestErrors', 'textErrors',
+                     'videoErrors']:
+            positions += [pos for _code, pos in getattr(options, name)]
+        for item in options.videoCorruption:
+            try:
+                positions.append(int(item, 10))
+            except ValueError:
+                positions.append(from_isodatetime(item))
+        for pos in positions:
+            # the position of an injected error is either a segment number
+            # or a time (date and time, or time of day)
+            if not isinstance(pos, (int, datetime.datetime, datetime.time)):
+                raise ValueError(f'Invalid error position: "{pos}"')
         for name in ['clockDrift', 'leeway', 'minimumUpdatePeriod',
                      'timeShiftBufferDepth']:
             value = getattr(options, name)
